@@ -1,0 +1,32 @@
+//go:build verif
+
+package tmengine
+
+// Verification hook (add-only, compiled only with -tags verif).
+// Re-exports the internal round state machine and the types a harness outside
+// this module needs to construct and drive it. No behaviour is added.
+
+import (
+	"context"
+	"log/slog"
+
+	"github.com/gordian-engine/gordian/tm/tmengine/internal/tmeil"
+	"github.com/gordian-engine/gordian/tm/tmengine/internal/tmstate"
+)
+
+type (
+	VerifStateMachine       = tmstate.StateMachine
+	VerifStateMachineConfig = tmstate.StateMachineConfig
+	VerifRoundTimer         = tmstate.RoundTimer
+
+	VerifSMRoundEntrance     = tmeil.StateMachineRoundEntrance
+	VerifSMRoundAction       = tmeil.StateMachineRoundAction
+	VerifSMScopedSignature   = tmeil.ScopedSignature
+	VerifSMRoundEntranceResp = tmeil.RoundEntranceResponse
+	VerifSMRoundView         = tmeil.StateMachineRoundView
+	VerifSMEnterRoundRequest = tmstate.VerifEnterRoundRequest
+)
+
+func VerifNewStateMachine(ctx context.Context, log *slog.Logger, cfg VerifStateMachineConfig) (*VerifStateMachine, error) {
+	return tmstate.NewStateMachine(ctx, log, cfg)
+}
